@@ -644,4 +644,121 @@ Proof.
   - exact IH.
 Qed.
 
+
+(* ---------- completeness of the acceptor: every run's visible trace is accepted ---------- *)
+Hypothesis res_eqb_refl : forall a, res_eqb a a = true.
+Hypothesis ev_eqb_eq : forall a b, ev_eqb a b = true -> a = b.
+
+Lemma list_eqb_eq : forall A (eqb : A -> A -> bool), (forall a b, eqb a b = true -> a = b) ->
+  forall x y, list_eqb eqb x y = true -> x = y.
+Proof.
+  intros A eqb E. induction x as [|a x IH]; destruct y as [|b y]; cbn; intros H; try discriminate H; [reflexivity|].
+  apply andb_true_iff in H. destruct H as (H1 & H2). f_equal; [apply E; exact H1|apply IH; exact H2].
+Qed.
+
+Lemma site_eqb_eq : forall a b, site_eqb a b = true -> a = b.
+Proof. intros [] []; cbn; intros H; try discriminate H; reflexivity. Qed.
+Lemma exit_eqb_eq : forall a b, exit_eqb a b = true -> a = b.
+Proof. intros [] []; cbn; intros H; try discriminate H; reflexivity. Qed.
+
+Lemma pc_eqb_eq : forall a b, pc_eqb ev res res_eqb ev_eqb a b = true -> a = b.
+Proof.
+  intros a b H. destruct a as [| |su| |e k|v k|w|w], b as [| |su'| |e' k'|v' k'|w'|w']; cbn in H; try discriminate H; try reflexivity.
+  - f_equal. destruct su, su'; cbn in H; try discriminate H; try reflexivity. f_equal. apply ev_eqb_eq. exact H.
+  - apply andb_true_iff in H. destruct H as (H1 & H2). f_equal; [apply ev_eqb_eq; exact H1|apply site_eqb_eq; exact H2].
+  - apply andb_true_iff in H. destruct H as (H1 & H2). f_equal; [apply dres_eqb_eq; exact H1|apply site_eqb_eq; exact H2].
+  - f_equal. apply exit_eqb_eq. exact H.
+  - f_equal. apply exit_eqb_eq. exact H.
+Qed.
+
+Lemma st_eqb_eq : forall a b, st_eqb ev res res_eqb ev_eqb a b = true -> a = b.
+Proof.
+  intros [a1 a2 a3 a4 a5 a6 a7 a8 a9 a10] [b1 b2 b3 b4 b5 b6 b7 b8 b9 b10] H. unfold st_eqb in H. cbn [srcq inch sclosed fwd buf rclosed out seen_closed stopped cancelled] in H.
+  repeat (apply andb_true_iff in H; let H' := fresh "E" in destruct H as (H & H')).
+  apply (list_eqb_eq _ _ ev_eqb_eq) in H. apply (list_eqb_eq _ _ ev_eqb_eq) in E7.
+  apply eqb_prop in E6. apply pc_eqb_eq in E5. apply (list_eqb_eq _ _ dres_eqb_eq) in E4. apply eqb_prop in E3.
+  apply (list_eqb_eq _ _ dres_eqb_eq) in E2. apply eqb_prop in E1. apply eqb_prop in E0. apply eqb_prop in E.
+  subst. reflexivity.
+Qed.
+
+Lemma dedup_complete : forall l x, In x l -> In x (dedup l).
+Proof.
+  induction l as [|y l IH]; intros x H; [contradiction|]. cbn.
+  destruct (existsb (st_eqb ev res res_eqb ev_eqb y) l) eqn:E.
+  - destruct H as [H|H]; [|apply IH; exact H]. subst y. apply existsb_exists in E. destruct E as (z & Iz & Ez).
+    apply st_eqb_eq in Ez. subst z. apply IH. exact Iz.
+  - destruct H as [H|H]; [left; exact H|right; apply IH; exact H].
+Qed.
+
+Lemma in_opt_list_intro : forall A (o : option A) x, o = Some x -> In x (opt_list o).
+Proof. intros A o x H. subst o. left. reflexivity. Qed.
+
+Lemma lib_closure_complete : forall ls fuel ss s s', In s ss -> run s ls s' -> Forall (fun l => lib l = true) ls ->
+  length ls <= fuel -> In s' (lib_closure fuel ss).
+Proof.
+  induction ls as [|l ls IH]; intros fuel ss s s' Is R F L.
+  - inversion R; subst. destruct fuel; cbn; [exact Is|apply in_or_app; left; exact Is].
+  - inversion R as [|? ? s1 ? ? Hs R']; subst. inversion F as [|? ? Hl F']; subst.
+    destruct fuel as [|f]; [cbn in L; lia|]. cbn [SubscriptionLts.lib_closure]. apply in_or_app. right.
+    apply (IH f _ s1 s'); [|exact R'|exact F'|cbn in L; lia].
+    apply dedup_complete. unfold lib_round. apply in_flat_map. exists s. split; [exact Is|].
+    apply in_flat_map. exists l. split; [apply lib_in_labels; exact Hl|apply in_opt_list_intro; exact Hs].
+Qed.
+
+Lemma closure_fuel_bound : forall ss s, In s ss -> measure s < closure_fuel ev res ss.
+Proof.
+  intros ss s I. unfold closure_fuel. apply Nat.lt_succ_r.
+  induction ss as [|y ss IH]; [contradiction|]. cbn [fold_right]. destruct I as [I|I]; [subst y; apply Nat.le_max_l|].
+  eapply Nat.le_trans; [apply IH; exact I|apply Nat.le_max_r].
+Qed.
+
+(* s is reachable from the set by library steps alone *)
+Definition covers (ss : list st) (s : st) : Prop :=
+  exists s0 ls, In s0 ss /\ run s0 ls s /\ Forall (fun l => lib l = true) ls.
+
+Lemma covers_in_closure : forall ss s, covers ss s -> In s (dedup (lib_closure (closure_fuel ev res ss) ss)).
+Proof.
+  intros ss s (s0 & ls & I0 & R & F). apply dedup_complete. apply (lib_closure_complete ls _ ss s0 s I0 R F).
+  pose proof (lib_run_bounded s0 ls s R F). pose proof (closure_fuel_bound ss s0 I0). lia.
+Qed.
+
+Lemma last_is_complete : forall pre v, last_is res res_eqb (pre ++ [v]) v = true.
+Proof.
+  intros pre v. unfold last_is. rewrite rev_app_distr. cbn. destruct v; cbn; [apply res_eqb_refl|reflexivity|reflexivity].
+Qed.
+
+Lemma obs_step_complete : forall s l s1 o, step s l s1 -> shows ev res l s1 o ->
+  In s1 (obs_step ev res exec sel cap res_eqb s o).
+Proof.
+  intros s l s1 o Hs Sh. unfold SubscriptionLts.step in Hs.
+  destruct l, o; cbn in Sh; try contradiction; cbn [obs_step];
+    try (apply in_opt_list_intro; exact Hs).
+  - destruct Sh as (pre & E). apply filter_In. split; [apply in_or_app; left; apply in_opt_list_intro; exact Hs|].
+    rewrite E. apply last_is_complete.
+  - destruct Sh as (pre & E). apply filter_In. split; [apply in_or_app; right; apply in_opt_list_intro; exact Hs|].
+    rewrite E. apply last_is_complete.
+Qed.
+
+Lemma orun_covers : forall s os s2, orun s os s2 -> forall ss, covers ss s -> covers (obs_run ss os) s2.
+Proof.
+  intros s os s2 O. induction O as [s|s l s1 os s2 Hl Hs O IH|s l s1 o os s2 Hs Sh O IH|s os s2 D O IH]; intros ss C.
+  - exact C.
+  - apply IH. destruct C as (s0 & ls & I0 & R & F). exists s0, (ls ++ [l]). split; [exact I0|].
+    split; [eapply run_snoc; eauto|apply Forall_app; split; [exact F|constructor; [exact Hl|constructor]]].
+  - cbn [SubscriptionLts.obs_run]. apply IH. exists s1, []. split; [|split; [apply run_nil|constructor]].
+    unfold obs_after. apply dedup_complete. apply in_flat_map. exists s. split; [apply covers_in_closure; exact C|].
+    eapply obs_step_complete; eauto.
+  - cbn [SubscriptionLts.obs_run]. apply IH. exists s, []. split; [|split; [apply run_nil|constructor]].
+    unfold obs_after. apply dedup_complete. apply in_flat_map. exists s. split; [apply covers_in_closure; exact C|].
+    cbn [obs_step]. rewrite D. left. reflexivity.
+Qed.
+
+Theorem accepts_obs_complete : forall s0 os s, orun s0 os s -> accepts_obs ev res exec sel cap res_eqb ev_eqb s0 os = true.
+Proof.
+  intros s0 os s O. unfold accepts_obs.
+  destruct (orun_covers s0 os s O [s0]) as (x & ls & Ix & _).
+  - exists s0, []. split; [left; reflexivity|split; [apply run_nil|constructor]].
+  - destruct (obs_run [s0] os); [contradiction|reflexivity].
+Qed.
+
 End Proofs.
